@@ -26,6 +26,7 @@ pub use components::{
 };
 // Schema types
 pub use schema::ZervSchema;
+pub(crate) use parser::zerv_ron_options;
 // Schema parser types
 pub use schema::parse_ron_schema;
 // Utilities
